@@ -784,6 +784,9 @@ class TOTP:
         elif key:
             # use existing key, encoded using specified <format>
             self.key = _decode_bytes(key, format)
+            if not self.key:
+                # e.g. a key consisting of separators / padding only
+                raise ValueError("key is empty")
 
         # enforce min key size
         if len(self.key) < self._min_key_size:
@@ -1631,7 +1634,8 @@ class TOTP:
             # XXX: wallet is known at this point, could decrypt key here.
             assert "key" not in kwds  # shouldn't be present w/ enckey
             kwds.update(key=kwds.pop("enckey"), format="encrypted")
-        elif "key" not in kwds:
+        elif not kwds.get("key"):
+            # (absent, None or empty: the constructor would answer with a TypeError)
             raise cls._dict_parse_error("missing 'enckey' / 'key'")
         # XXX: could should set changed=True if active wallet is available,
         #      and source wasn't encrypted.
